@@ -19,7 +19,7 @@ ASSUMPTIONS = ['the ordered-list model is the fact store of reference interprete
                'non-callable arguments (unbound, integer) to assert/retract are type errors: not generated']
 
 KEYS = [('p', 0), ('p', 1), ('p', 2), ('q', 1), ('q', 2), ('r', 0)]
-CONST = [A('a'), A('b'), A('c'), I(1), I(2), C('f', A('a'))]
+CONST = [A('a'), A('b'), A('c'), I(1), I(2), C('f', A('a')), C('f', A('a'), A('b')), C('f', A('a'), A('b'), I(1)), C('g', C('f', A('a'))), C('g', C('f', A('a'), A('b')))]
 
 ALPHABET = None
 
@@ -84,6 +84,9 @@ def rand_pattern(rng, key, step):
             args.append(rng.choice(vs[:1] if rng.random() < 0.5 else vs))
         elif r < 0.55:
             args.append(V('_'))
+        elif r < 0.7:
+            # compound patterns: same functor name as stored terms, various arities, variables inside
+            args.append(rng.choice([C('f', vs[0]), C('f', A('a'), vs[0]), C('f', A('a'), A('b'), vs[1]), C('g', C('f', vs[0])), C('f', V('_'), V('_'))]))
         else:
             args.append(rng.choice(CONST))
     return C(name, *args)
